@@ -2,66 +2,49 @@ package main
 
 import (
 	"fmt"
-	"runtime/debug"
-	"strings"
 
+	"github.com/canopy-network/canopy/fsm"
 	"github.com/canopy-network/canopy/lib"
-	"github.com/canopy-network/canopy/store"
+	"github.com/canopy-network/canopy/lib/crypto"
+	"verifharness/sim"
 )
 
 func main() {
-	for _, w := range []int{8, 16, 160} {
-		v, _ := store.VerifNewSMT(w, lib.NewNullLogger())
-		var keys [][]byte
-		var ops []store.VerifOp
-		for i := 0; i < 12; i++ {
-			k := []byte(fmt.Sprintf("key-%d", i))
-			keys = append(keys, k)
-			ops = append(ops, store.VerifOp{Key: k, Value: []byte{byte(i), 1}})
-		}
-		root, err := v.Commit(ops, false)
-		if err != nil {
-			panic(err)
-		}
-		stat := map[string]int{}
-		first := map[string]string{}
-		for i, a := range keys {
-			pa, e := v.Proof(a)
-			if e != nil {
-				stat["proof-err"]++
-				continue
-			}
-			for j, b := range keys {
-				for _, mem := range []bool{true, false} {
-					func() {
-						defer func() {
-							if p := recover(); p != nil {
-								k := fmt.Sprintf("panic mem=%v same=%v", mem, i == j)
-								stat[k]++
-								if first[k] == "" {
-									st := string(debug.Stack())
-									idx := strings.Index(st, "store/smt.go")
-									first[k] = fmt.Sprint(p) + " @ " + st[idx:idx+60]
-								}
-							}
-						}()
-						ok, e := v.Verify(b, []byte{byte(j), 1}, mem, root, pa)
-						stat[fmt.Sprintf("mem=%v same=%v ok=%v err=%v", mem, i == j, ok, e != nil)]++
-					}()
-				}
-			}
-			// absent key
-			abs := []byte(fmt.Sprintf("absent-%d", i))
-			pb, _ := v.Proof(abs)
-			ok, e := v.Verify(abs, nil, false, root, pb)
-			stat[fmt.Sprintf("absent honest nonmember ok=%v err=%v", ok, e != nil)]++
-			ok, e = v.Verify(abs, []byte{1}, true, root, pb)
-			stat[fmt.Sprintf("absent claimed member ok=%v err=%v", ok, e != nil)]++
-		}
-		fmt.Println("width", w)
-		for k, n := range stat {
-			fmt.Printf("   %-50s %d   %s\n", k, n, first[k])
-		}
-		v.Close()
+	g := &sim.GenesisSpec{}
+	p := fsm.DefaultParams()
+	p.Validator.UnstakingBlocks = 2
+	g.Params = p
+	for i := 0; i < 4; i++ {
+		g.Validators = append(g.Validators, sim.StdValidator(i, 1000000+uint64(i)))
 	}
+	for i := 0; i < 10; i++ {
+		g.Accounts = append(g.Accounts, &fsm.Account{Address: sim.BLSKey(i).Addr, Amount: 5_000_000_000})
+	}
+	sim.RegisterKeys(16)
+	a, err := sim.NewCNode(g.State(), 0, nil)
+	if err != nil {
+		panic(err)
+	}
+	b, err := sim.NewCNode(g.State(), 1, nil)
+	if err != nil {
+		panic(err)
+	}
+	a.Enter()
+	h := a.C.FSM.Height()
+	k0, k3 := sim.BLSKey(0), sim.BLSKey(3)
+	txs := [][]byte{
+		sim.TxBytes(fsm.NewChangeParamTxUint64(k0.Priv, fsm.ParamSpaceVal, fsm.ParamUnstakingBlocks, 0, h, h+5, 1, 1, 10000, h, "p")),
+		sim.TxBytes(fsm.NewUnstakeTx(k3.Priv, crypto.NewAddress(k3.Addr), 1, 1, 10000, h, "u")),
+	}
+	a.ApproveGov(txs)
+	b.ApproveGov(txs)
+	prop, perr := a.Propose(txs)
+	fmt.Println("propose err:", perr)
+	blk := new(lib.Block)
+	_ = lib.Unmarshal(prop.Block, blk)
+	fmt.Println("included txs:", len(blk.Transactions), "state root", lib.BytesToTruncatedString(blk.BlockHeader.StateRoot))
+	view := a.CommitView()
+	vs, _ := a.Committee(view.RootHeight)
+	qc, _ := sim.MakeQC(vs, view, k0.Pub, prop, sim.AllSigners(vs))
+	fmt.Println("validate on b:", b.Validate(prop, qc))
 }
